@@ -64,7 +64,7 @@ var properties = []Property{
 	P("C08", "purity analysis, error-propagation chains over the module call graph, field-by-field provenance of the merged value; bounded path enumeration of one round of each merge loop with a decision-table comparison (no solver)",
 		"four clauses: per profile entry, what Merge emits and records is what the documented table says on every path of one round (MERGE-PATHS); merging does not write to the profile or configuration it was given; the merged value is a whole copy in which only Validity (under the exact inheritance guard) and Extensions (a fresh list) differ; a content-less extension that remains makes generation fail (the override-needed builder always errs, every Builder/Compile error is returned up to the CLI, every Builder hands the handler's result back). Also: the unmerged configuration is returned only behind a test that no profile is named.",
 		"the merge over lists longer than the unrolling (MERGE-PATHS walks every path through one round of each loop with the inner loops unrolled twice and compares it with the documented decision table; it recognises index lists kept as slices searched by a loop, slices.Contains or a helper, maps and boolean slices - another bookkeeping is reported as undecided).",
-		"PURE", "STATELESS", "ERR-CHAIN-EXT", "MERGE-COPY", "MERGE-PATHS", "LINT-REUSE", "GUARD-PROFILE", "HASH-SHAPE"),
+		"PURE", "STATELESS", "ERR-CHAIN-EXT", "MERGE-COPY", "MERGE-PATHS", "LINT-REUSE", "GUARD-PROFILE", "JSON-OMITEMPTY"),
 	P("C09", "field liveness with branch-condition use, purity analysis, call-graph effect closure, error chain to the exit status; path-table comparison of the table recurrence; global-state effect analysis",
 		"that the optional flag is consulted as a branch condition of the subject validator; that validation does not modify the subject; that a failed validation is an error of planning which the CLI turns into a non-zero exit before generation, and that planning and opening cannot write. Also: validation, merging, hashing, subject parsing and the decision keep no package-level state between calls; the recurrence of the table is checked as a path table (final value of a cell against the formula, for every completion of untested conditions); every RDN built has one attribute, which is what the validator looks at. Also, in the validator: the table rows are computed from the last to the first and all columns of each, the answer is the cell [0][0], an unresolvable attribute name and an empty RDN are rejections, and with allowOther the found-flag is false until an attribute equals the wanted one, a missing mandatory attribute answers false and the end of the search answers true; a successful exit of validate-and-merge lies behind a passed validation or behind the test that no profile is named.",
 		"that the validator implements the subsequence rule for all profile x subject pairs: VALIDATE-DP checks that the table recurrence has the documented form, which is a shape rule about today's algorithm, not a proof about all inputs.",
